@@ -456,4 +456,12 @@ theorem allContain_iff (g : List String) (m : String) :
     allContain g m = true ↔ ∀ p ∈ g, strContains p m = true := by
   simp [allContain, List.all_eq_true]
 
+theorem decoy_only_if_all_aux (g : List String) :
+    isDecoy g = true ↔
+      (∀ p ∈ g, ∃ a b, p.toList = a ++ "REV__".toList ++ b) ∨
+      (∀ p ∈ g, ∃ a b, p.toList = a ++ "rev_".toList ++ b) := by
+  unfold isDecoy
+  rw [Bool.or_eq_true, allContain_iff, allContain_iff]
+  simp only [strContains, containsSub_iff]
+
 end PgFdr.C01
